@@ -66,7 +66,13 @@ pub fn case_json(code: &[u8], regs: &Regs, cells: &[(u16, u8)]) -> Value {
 
 /// General single-instruction comparison: the interpreter on `real`, the
 /// reference CPU on `twin`'s bus. Both machines are returned to the snapshot.
-pub fn twin_check(p: &mut Pair, code: &[u8], regs: &Regs, cells: &[(u16, u8)], scope: Scope) -> CaseResult {
+pub struct TwinInfo {
+    pub status: u8,
+    pub end: bool,
+    pub out: sm83::StepOut,
+}
+
+pub fn twin_check(p: &mut Pair, code: &[u8], regs: &Regs, cells: &[(u16, u8)], scope: Scope) -> Result<TwinInfo, Fail> {
     let pc = regs.pc as u16;
     place_code(&mut p.real, pc, code);
     place_code(&mut p.twin, pc, code);
@@ -92,7 +98,7 @@ pub fn twin_check(p: &mut Pair, code: &[u8], regs: &Regs, cells: &[(u16, u8)], s
     };
     let want = regs_from_cpu(&cpu, regs.cycles + out.cycles);
     p.twin.set_regs(&want);
-    let mut result: CaseResult = Ok(());
+    let mut result: Result<TwinInfo, Fail> = Ok(TwinInfo { status: 0, end: false, out });
     match r {
         Err(msg) => {
             result = Err(Fail::new(
@@ -103,7 +109,8 @@ pub fn twin_check(p: &mut Pair, code: &[u8], regs: &Regs, cells: &[(u16, u8)], s
         Ok(None) => {
             result = Err(Fail::new(format!("no-exec-{}", sig_of(code)), format!("run_next_op refused to execute at PC={:#06x}", pc)));
         }
-        Ok(Some((_status, _end))) => {
+        Ok(Some((status, end))) => {
+            result = Ok(TwinInfo { status, end, out });
             let got = p.real.regs();
             let d = match scope {
                 Scope::Data => diff_regs(&got, &want, false, false),
@@ -138,6 +145,12 @@ pub fn twin_check(p: &mut Pair, code: &[u8], regs: &Regs, cells: &[(u16, u8)], s
     touched.extend(model_writes.iter().cloned());
     for &(a, _) in cells {
         touched.push((a, 0));
+    }
+    for k in 0..code.len() as u16 {
+        let a = pc.wrapping_add(k);
+        if a >= 0x8000 {
+            touched.push((a, 0));
+        }
     }
     if result.is_err() {
         p.real.restore(&p.snap);
